@@ -204,6 +204,17 @@ class GenAudit:
         got_open = sorted(tuple(v["tag"]) for v in ev["post"])
         if exp_open != got_open:
             self.viol("C04", "open_list_update", f"open descriptors after attach {got_open} != expected {exp_open}", ev)
+        # the attached fragment itself stays the unmodified copy of its token it was (a caller may hold on to it): attaching
+        # must not move its descriptors to other atoms / nodes or change their weights
+        po = ev.get("post_other")
+        if po is not None:
+            def core(v):
+                return (v["sym"], v["id"], v["bt"], v["w"], v["tr"], v["atom"], v["node"])
+
+            if [core(v) for v in po] != [core(v) for v in pre_other]:
+                self.viol("C05", "attached_fragment_modified",
+                          f"attach_other changed the fragment of {tok.name} that was attached: its descriptors were "
+                          f"{[(v['sym'], v['atom'], v['node'], v['w']) for v in pre_other]} and are now {[(v['sym'], v['atom'], v['node'], v['w']) for v in po]}", ev)
         res_obj = ev.get("robj", ev["obj"])
         self.used[res_obj] = used_s | used_o | {ts, to}
         # ---------------- C08: explain pending decisions --------------------
@@ -730,14 +741,29 @@ class GenAudit:
             a0 = growth[0]["ev"]["w_pre"]
             added = [g["ev"]["w_post"] - a0 for g in growth]
             self.stop_records.append({"ei": ei, "target": t, "added": added, "caps": len(caps)})
+            # Exact ties.  Whether "added mass == target" is seen as a tie depends on how the mass is summed (the molecule weighed
+            # as a whole, or unit masses accumulated): the last bit differs, the property does not.  A comparison within 1e-11
+            # (relative) of equality is therefore only judged where every summation gives the same float: the first unit of a
+            # block that starts from zero heavy-atom mass (prefix [H], or an [H] end group).
+            def near(x):
+                return abs(x - t) <= 1e-11 * max(1.0, abs(t))
+
+            def judged(k):
+                return (not near(added[k])) or (k == 0 and a0 == 0.0)
+
             for k, g in enumerate(growth[:-1]):
+                if added[k] > t and not judged(k):
+                    self.probe("tie_within_rounding_not_judged")
+                    continue
                 if added[k] > t:
                     self.viol("C07", "grew_past_target",
                               f"object {ei}: after unit {k + 1} the added mass {added[k]} already exceeded the target {t}, yet unit {k + 2} was appended",
                               g["ev"])
                     break
             last = growth[-1]
-            if not (added[-1] > t) and len(last["ev"]["post"]) > 0:
+            if not (added[-1] > t) and len(last["ev"]["post"]) > 0 and not judged(len(added) - 1):
+                self.probe("tie_within_rounding_not_judged")
+            elif not (added[-1] > t) and len(last["ev"]["post"]) > 0:
                 # the reserved terminal descriptor may be the only open one: that still counts as open
                 self.viol("C07", "stopped_early",
                           f"object {ei}: stopped after {len(growth)} units with added mass {added[-1]} <= target {t} although descriptors were open",
